@@ -254,10 +254,13 @@ func extractTermsAux(ctx *Context, x interface{}, terms StringSet, depth int) {
 
 func (s *IndexedState) Add(ctx *Context, id string, x Map) (string, error) {
 	Log(DEBUG, ctx, "IndexedState.Add", "state", s.Name, "factx", x, "id", id)
-	delete(s.cachedRules, id)
+	// Hold the lock (and be sure to release it, whatever happens
+	// in a hook or with strange input) for the whole operation,
+	// so that memory and storage change together.
 	s.slock(ctx, false)
+	defer s.sunlock(ctx, false)
+	delete(s.cachedRules, id)
 	id, fact, err := s.add(ctx, id, x)
-	s.sunlock(ctx, false)
 
 	if nil != err {
 		return "", err
@@ -624,8 +627,8 @@ func (s *IndexedState) Search(ctx *Context, pattern Map) (*SearchResults, error)
 	defer timer.Stop()
 
 	s.slock(ctx, true)
+	defer s.sunlock(ctx, true)
 	srs, err := s.search(ctx, pattern)
-	s.sunlock(ctx, true)
 
 	return srs, err
 }
